@@ -1,6 +1,8 @@
 package imapclient
 
 import (
+	"fmt"
+
 	"github.com/emersion/go-imap/v2"
 )
 
@@ -23,6 +25,10 @@ func (c *Client) UIDExpunge(uids imap.UIDSet) *ExpungeCommand {
 }
 
 func (c *Client) handleExpunge(seqNum uint32) error {
+	if seqNum == 0 {
+		return fmt.Errorf("in message-data: EXPUNGE with the invalid sequence number 0")
+	}
+
 	c.mutex.Lock()
 	if c.state == imap.ConnStateSelected && c.mailbox.NumMessages > 0 {
 		c.mailbox = c.mailbox.copy()
